@@ -5,7 +5,7 @@ from ..engines import solver
 from ..refmodel import RefModel
 
 PROP = "C18"
-BUDGET = {"quick": 160, "thorough": 4000}
+BUDGET = {"quick": 320, "thorough": 6000}
 ALARM_S = 1800
 RULE = ("catalogue models x generating parameters x noise-free or perturbed data x loss class (all five for the box and "
         "descent clauses; Square and Normal on noise-free data for the 'started at the truth' clause) x box bounds x start "
@@ -14,7 +14,7 @@ RULE = ("catalogue models x generating parameters x noise-free or perturbed data
 MEASURE = "distinct (model, loss class, number of free variables, started at truth, I policy) tuples"
 COMPONENTS = {"real": ["pygom.loss.BaseLoss.fit, cost, sensitivity", "scipy.optimize.minimize (L-BFGS-B)", "scipy.integrate.ode"],
               "stub": ["I seam (buffer policy)", "backend='lambda'"]}
-ASSUMPTIONS = ["cost(x_hat) <= cost(x_start)(1+1e-9)+1e-12 with both costs evaluated by PyGOM (C06 pins cost to the reference)",
+ASSUMPTIONS = ["cost(x_hat) <= cost(x_start) + 1e-9|cost(x_start)| + 1e-12 with both costs evaluated by PyGOM (C06 pins cost to the reference)",
                "'returns those parameters' = within 1e-6 (1+|theta*|)"]
 KEEP = ("C18.",)
 
@@ -23,13 +23,22 @@ def generate(seed, tier):
     S = core.Streams(seed)
     rng = S("gen")
     for _ in range(100):
-        name, model, theta, x0, t0, tmax, box, pos = solver.pick_problem(rng, random_frac=0.0)
+        at_truth = rng.random() < 0.3
+        hard = (not at_truth) and rng.random() < 0.4
+        name, model, theta, x0, t0, tmax, box, pos = solver.pick_problem(
+            rng, random_frac=0.0, names=["SIR", "SIS", "SEIR"] if hard else None)
         ref = RefModel(model, insertion_order(model))
-        at_truth = rng.random() < 0.35
         classes = ["SquareLoss", "NormalLoss"] if at_truth else None
-        d = solver.gen_loss_def(rng, "L1", ref, name, theta, x0, t0, min(tmax, 15.0), box, pos, classes=classes,
+        if hard:
+            # badly conditioned fits (count / gamma likelihoods on small-valued trajectories, wide boxes, starts
+            # near the faces of the box): the optimiser's line search is likely to terminate abnormally
+            classes = ["GammaLoss", "GammaLoss", "NegBinomLoss", "PoissonLoss"]
+            box = [[th / 3.0, th * 3.0] for th in theta]
+        d = solver.gen_loss_def(rng, "L1", ref, name, theta, x0, t0, tmax if hard else min(tmax, 15.0), box, pos, classes=classes,
+                                min_yhat=1e-8 if hard else 1e-3,
                                 allow_targets=rng.random() < 0.3, allow_weights=True,
-                                force_noise_free=True if at_truth else None)
+                                force_noise_free=True if (at_truth or hard) else None,
+                                force_states=["I"] if hard else None)
         if d is None:
             continue
         d.pop("target_state", None)
@@ -48,6 +57,8 @@ def generate(seed, tier):
             start = [theta[i] for i in bidx]
         else:
             start = [round(rng.uniform(l + 0.02 * (u - l), u - 0.02 * (u - l)), 4) for l, u in zip(lb, ub)]
+            if hard and rng.random() < 0.5:
+                start = [round(l + (u - l) * rng.choice([0.03, 0.08, 0.92, 0.97]), 4) for l, u in zip(lb, ub)]
         env, batch = solver.env_for(S, tier)
         ops = [d]
         if rng.random() < 0.6:
